@@ -40,7 +40,7 @@ class Stream:
         return [self.ev('VFS_LOOKUP', (START if i == 0 else 0) | (END if i == len(chunks) - 1 else 0), tid, data=c)
                 for i, c in enumerate(chunks)]
 
-    def chunks_string(self, name, tid, first_prefix, text):
+    def chunks_string(self, name, tid, first_prefix, text, between=None):
         raw = text if isinstance(text, bytes) else text.encode()
         room = 32 - len(first_prefix)
         chunks = [first_prefix + raw[:room].ljust(room, b'\0')]
@@ -48,14 +48,20 @@ class Stream:
         while raw:
             chunks.append(raw[:32].ljust(32, b'\0'))
             raw = raw[32:]
-        return [self.ev(name, (START if i == 0 else 0) | (END if i == len(chunks) - 1 else 0), tid, data=c)
-                for i, c in enumerate(chunks)]
+        out = []
+        for i, c in enumerate(chunks):
+            if i and between:
+                between()
+            out.append(self.ev(name, (START if i == 0 else 0) | (END if i == len(chunks) - 1 else 0), tid, data=c))
+        return out
 
-    def gstring(self, tid, str_id, text, debugid=0):
-        return self.chunks_string('TRACE_STRING_GLOBAL', tid, debugid.to_bytes(8, 'little') + str_id.to_bytes(8, 'little'), text)
+    def gstring(self, tid, str_id, text, debugid=0, between=None):
+        return self.chunks_string('TRACE_STRING_GLOBAL', tid, debugid.to_bytes(8, 'little') + str_id.to_bytes(8, 'little'),
+                                  text, between)
 
-    def threadname(self, tid, text, prev=False):
-        return self.chunks_string('TRACE_STRING_THREADNAME_PREV' if prev else 'TRACE_STRING_THREADNAME', tid, b'', text)
+    def threadname(self, tid, text, prev=False, between=None):
+        return self.chunks_string('TRACE_STRING_THREADNAME_PREV' if prev else 'TRACE_STRING_THREADNAME', tid, b'', text,
+                                  between)
 
     def name32(self, text):
         raw = text if isinstance(text, bytes) else text.encode()
@@ -220,6 +226,22 @@ REAL_FAULTS = ['RealFaultAddressInternal', 'RealFaultAddressExternal', 'RealFaul
                'RealFaultAddressPurgeable']
 
 
+def unrelated_trace_record(s, rng, tid):
+    """Sometimes: an unrelated kernel trace record of the same thread falls between a string's chunks."""
+    if rng.random() < 0.75:
+        return None
+
+    def emit():
+        r = rng.random()
+        if r < 0.4:
+            s.ev('TRACE_DATA_THREAD_TERMINATE', NONE, tid, [0x41424344, 0, 0, 0])
+        elif r < 0.7:
+            s.ev('TRACE_STRING_PROC_EXIT', NONE, tid, data=s.name32('xyz'))
+        else:
+            s.ev('TRACE_DATA_EXEC', ALL, tid, [rng.randrange(1, 50), 1, 2, 0])
+    return emit
+
+
 def add_operation(s, rng, tids, syscalls=SYSCALLS):
     tid = rng.choice(tids)
     k = rng.random()
@@ -238,9 +260,9 @@ def add_operation(s, rng, tids, syscalls=SYSCALLS):
     elif k < 0.52:
         s.exec_(tid, rng.randrange(1, 50), 'proc%d' % rng.randrange(9), rng.random() < 0.85, rng.random() < 0.85)
     elif k < 0.62:
-        s.gstring(tid, rng.randrange(0, 6), D.rand_path(rng))
+        s.gstring(tid, rng.randrange(0, 6), D.rand_path(rng), between=unrelated_trace_record(s, rng, tid))
     elif k < 0.70:
-        s.threadname(tid, D.rand_path(rng)[:70], rng.random() < 0.3)
+        s.threadname(tid, D.rand_path(rng)[:70], rng.random() < 0.3, between=unrelated_trace_record(s, rng, tid))
     elif k < 0.75:
         s.ev('TRACE_DATA_THREAD_TERMINATE', NONE, tid, [rng.choice(tids + [150]), 0, 0, 0])
     elif k < 0.79:
